@@ -8,4 +8,29 @@ def rmax (a b : Rat) : Rat := if a ≤ b then b else a
 def rmin (a b : Rat) : Rat := if a ≤ b then a else b
 def rabs (a : Rat) : Rat := if a < 0 then -a else a
 
+/-- sum of a list (left fold, as a NumPy / numba accumulation loop) -/
+def lsum (l : List Rat) : Rat := l.foldl (· + ·) 0
+
+/-- `range(n)` as integers -/
+def irange (n : Int) : List Int := (List.range n.toNat).map (fun (k : Nat) => (k : Int))
+
+/-- row-major list of the `h × w` cells of an image -/
+def flat (f : Int → Int → Rat) (h w : Int) : List Rat :=
+  (irange h).flatMap fun y => (irange w).map fun x => f y x
+
+/-- minimum of a list (`np.min`); 0 for the empty list (never used on one) -/
+def minList : List Rat → Rat
+  | [] => 0
+  | x :: t => t.foldl (fun a b => rmin a b) x
+
+/-- running minimum that starts at `+inf` (`none`) -/
+def minOpt : List Rat → Option Rat
+  | [] => none
+  | c :: t => some (t.foldl (fun a b => rmin a b) c)
+
+/-- `max(0, ·)` on a value that may be `+inf` (`none`) -/
+def optMax0 : Option Rat → Option Rat
+  | none => none
+  | some v => some (rmax 0 v)
+
 end Model
